@@ -22,7 +22,7 @@ func init() {
 		level: "exploration",
 		rule: "for ~40 (quick: 14) valid specifications in two layouts: EVERY single-token deletion, EVERY insertion and replacement by each of the 22 token kinds, and EVERY truncation, at every position; plus stray characters (# % & ' ~ ` etc.), lone @ $ \", unterminated string / pattern / comment at every token gap. " +
 			"For each text that is no longer a specification the reference reader gives the first offending element; the error text of spec.Parse, ebnf ast.Parse and Parser.Parse (and of the CLI for a sample) must contain <file>:<line>:<col> of exactly that element; for a text that merely ends early it must not contain the position of any token present; " +
-			"replacing everything after the offending element by 4 different tails must not change the message. Bytes that are not UTF-8 (7 forms) after 15 kinds of separator (line breaks without indentation, comments spanning lines ...) at every token gap: the error must carry line:column of the first such byte. The same single-token edits after an EARLIER well-formedness defect (an unknown $NAME): the position of the first offending token must still be reported. non-trivial = offending element is not the first token; distinct by text.",
+			"replacing everything after the offending element by 7 different tails (three of them with bytes that are not UTF-8 further down) must not change the message. Bytes that are not UTF-8 (7 forms) after 15 kinds of separator (line breaks without indentation, comments spanning lines ...) at every token gap: the error must carry line:column of the first such byte. The same single-token edits after an EARLIER well-formedness defect (an unknown $NAME): the position of the first offending token must still be reported. non-trivial = offending element is not the first token; distinct by text.",
 		assumptions: []string{"a text that has a syntax error is 'rejected for' it even when an earlier well-formedness defect (unknown $NAME) is present, as the unchanged spec.Parse does (it collects such defects and goes on); only spec.Parse, the CLI's entry point, is held to this, and other diagnostics may accompany the position", "first offending element per the reference reader R1 (greedy recursive descent = LR correct-prefix behaviour, cross-validated by C04 on all sequences to length 9/12)"},
 		floorQuick:  10000, floorThorough: 200000,
 		run: runC20,
@@ -145,7 +145,7 @@ func c20Check(c *ctx, name, text string, tailTest bool) {
 	}
 	prefix := string(rs[:cut])
 	base := ""
-	for i, tail := range []string{"\n", " ;\n", "\n grammar again ; start = ;\n", " \"x\" | \n/* open", "\n# ~"} {
+	for i, tail := range []string{"\n", " ;\n", "\n grammar again ; start = ;\n", " \"x\" | \n/* open", "\n# ~", "\n\xff\n", " \n/* c */ x \xc3(\n", "\n\n\n// Latin-1: caf\xe9\n"} {
 		t2 := prefix + tail
 		rd2 := refRead(t2)
 		// precondition: the reference still sees the same first offending element
@@ -330,6 +330,23 @@ func runC20(c *ctx) {
 						}
 					}
 				}
+			}
+		}
+	}
+	// unterminated comments and strings that span thousands of lines: the error belongs to the line where they START
+	{
+		for i, nl := range []int{10, 4095, 4096, 4097, 5000, 9000, 20000} {
+			for j, body := range []string{"\n", "x\n", " * \n"} {
+				if !c.mine() {
+					continue
+				}
+				head := "grammar g;\nstart = \"a\" ;\n\n"
+				for _, opener := range []string{"  /* never closed ", "start = /* "} {
+					text := head + opener + strings.Repeat(body, nl)
+					c20Check(c, fmt.Sprintf("long-open-comment/%d.%d", i, j), text, false)
+					c20Check(c, fmt.Sprintf("long-open-comment-then-stray/%d.%d", i, j), head+"  /* closed after many lines "+strings.Repeat(body, nl)+"*/ #", false)
+				}
+				c.count("comments_spanning_thousands_of_lines", 2)
 			}
 		}
 	}
